@@ -130,8 +130,29 @@ static result run_yscrambling(int learner, int loo, int fam) {
 
 #ifndef C06_FREE
 static void body(void) {
-  int driver = vx_choose("driver", 6);
+  int driver = vx_choose("driver", 7);
   { const char *only = getenv("C06_ONLY_DRIVER"); if (only && *only) vx_require(driver == atoi(only)); }   /* calibration aid, never set by run_check */
+  if (driver == 6) {            /* G: leave-one-out and k-fold pools for every thread count (default schedule): N threads = sequential run */
+    int learner = vx_choose("learner", 3), kfold = vx_choose("scheme", 2), cfg = vx_choose("nthreads", 6), fam = vx_choose("data", 2);
+    static const int NTG[6] = {1, 2, 3, 4, 5, 7};
+    vx_require(!(kfold && learner == 2 && 0));
+    result rr[2];
+    for (int pass = 0; pass < 2; pass++) {
+      int nobj = 9; matrix *x, *y, *pred; MODELINPUT in = initModelInput();
+      if (learner == 2) { x = mk(nobj, 1, fam, 0); for (int i = 0; i < nobj; i++) x->data[i][0] += (i % 2) ? 0.3 : -0.3; y = mk_labels(nobj, 5); } else { x = mk(nobj, 2, fam, 0.5); y = mk_y(x, fam); }
+      in.mx = x; in.my = y; in.nlv = learner == 0 ? 1 : 0; in.xautoscaling = learner == 0; initMatrix(&pred);
+      AlgorithmType at = learner == 0 ? _PLS_ : learner == 1 ? _MLR_ : _LDA_;
+      CLOCK_TICKS = 0; vs_begin(1, 0);
+      if (!kfold) LeaveOneOut(&in, at, pred, NULL, (size_t)(pass ? NTG[cfg] : 1), NULL, 0);
+      else { uivector *g; NewUIVector(&g, (size_t)nobj); for (int i = 0; i < nobj; i++) g->data[i] = (size_t)(i % 3); KFoldCV(&in, g, at, pred, NULL, (size_t)(pass ? NTG[cfg] : 1), NULL, 0); DelUIVector(&g); }
+      vs_end();
+      rr[pass] = take(pred); DelMatrix(&pred); DelMatrix(&x); DelMatrix(&y);
+    }
+    vx_transition(2);
+    char key[96]; snprintf(key, sizeof key, "threadcount|%s|%s", kfold ? "KFoldCV" : "LeaveOneOut", LNAME[learner]);
+    vx_check(same_bits(&rr[0], &rr[1]), key, "predictions with nthreads=%d differ from nthreads=1 (max rel diff %g)", NTG[cfg], reldiff(&rr[1], &rr[0]));
+    vx_outcome(rr[1].h); free(rr[0].v); free(rr[1].v); return;
+  }
   if (driver == 5) {            /* F: seeded k-means (random and k-means++ initialisers) for every thread count, default schedule */
     int init = vx_choose("initialiser", 2), cfg = vx_choose("nthreads", 7), n = 11 + 4 * vx_choose("objects", 4), k = 2 + vx_choose("k-2", 3);
     static const int NTF[7] = {1, 2, 3, 4, 5, 6, 8};
@@ -230,7 +251,7 @@ int main(int argc, char **argv) {
   vx_describe("pass", "free-running real threads under ThreadSanitizer over the driver bodies (bootstrap CV with 2/4 workers, concurrent seeded callers, leave-one-out pools); a reported race terminates the worker and is attributed to the path");
   vx_set_shard_depth(2);
 #else
-  vx_describe("drivers", "A: BootstrapRandomGroupsCV 2 workers x {PLS,MLR,LDA} x 2 data sets; B: 3 workers (decision horizon 150); C: two user threads, each one of {random_kfold_group_generator, train_test_split, KMeansppCenters} after seeding; E: nthreads in {1,2,3,4,6,8} with 24 iterations under the default schedule; F: seeded KMeans (random / k-means++ initialiser) x objects {11,15,19,23} x k 2..4 x nthreads {1,2,3,4,5,6,8} equal to nthreads=1; D: YScrambling (PLS, MLR) x (LOO, bootstrap validation with its hard-coded 4 workers x 100 iterations), 1 scrambling iteration, decision horizon 12 (20 thorough; quick: MLR on one data set only), preemption bound 1");
+  vx_describe("drivers", "A: BootstrapRandomGroupsCV 2 workers x {PLS,MLR,LDA} x 2 data sets; B: 3 workers (decision horizon 150); C: two user threads, each one of {random_kfold_group_generator, train_test_split, KMeansppCenters} after seeding; E: nthreads in {1,2,3,4,6,8} with 24 iterations under the default schedule; G: LeaveOneOut and KFoldCV x {PLS,MLR,LDA} x nthreads {1,2,3,4,5,7} bit-identical to nthreads=1; F: seeded KMeans (random / k-means++ initialiser) x objects {11,15,19,23} x k 2..4 x nthreads {1,2,3,4,5,6,8} equal to nthreads=1; D: YScrambling (PLS, MLR) x (LOO, bootstrap validation with its hard-coded 4 workers x 100 iterations), 1 scrambling iteration, decision horizon 12 (20 thorough; quick: MLR on one data set only), preemption bound 1");
   vx_describe("scheduling points", "pthread_create, thread exit, blocking pthread_join, entry of srand_/rand_/randInt/randDouble; exactly one thread runs at a time; enabled set ordered running-first then ascending id");
   vx_describe("bounds", "mode 0: all schedules with at most B preemptions (A, C: 2 quick / 3 thorough; B: 1 / 2), no state merging; mode 1: unbounded preemptions with merging on the canonical state (per-thread run state, draws, hash of received values; last srand_ argument in global order and draws since), state cap 200000 (A, B, C in both tiers)");
   vx_describe("oracle", "every complete schedule: result bit-identical to the default schedule and within 1e-12 of the single-thread run; concurrent seeded callers each equal their stand-alone outcome");
